@@ -168,6 +168,14 @@ def run_shards(binary, workload, extra, cases, secs, seed, tier, outdir, tag, pr
                 # limit; only if it still does not return is it reported (for C08/C09 as non-termination of C09).
                 case = jn.get("case") if jn else None
                 verdict = "not-reproduced"
+                wd_hits = res.stats.get("watchdog_hits", 0) + 1
+                res.stats["watchdog_hits"] = wd_hits
+                established = any("/non-termination/" in v["sig"] for v in res.viols)
+                if established or wd_hits > 6:
+                    # non-termination is already established (or the budget for isolated re-runs is used up):
+                    # further hits are only counted, the shard is not restarted
+                    res.inconclusive.append({"why": "per-case watchdog fired again; not re-run alone (already established / budget used)", "case": case})
+                    continue
                 if case is not None and case < 2**63:
                     solo = [a for a in base] + ["--only", str(case), "--case-watchdog", "100000", "--out", out + ".solo"]
                     try:
@@ -177,7 +185,7 @@ def run_shards(binary, workload, extra, cases, secs, seed, tier, outdir, tag, pr
                         verdict = "still-running"
                 if verdict == "still-running":
                     vp = "C09" if (abort_prop in ("C08", "C09")) else (abort_prop or prop)
-                    sig = f"{vp}/non-termination/{workload}/{jn.get('note','')[:80]}"
+                    sig = f"{vp}/non-termination/{workload}"
                     res.viols.append({"prop": vp, "sig": sig, "detail": f"case {case} did not return within {SOLO_LIMIT_S} s when run alone (>= 10^4 x the typical case time; not a proof of divergence): {jn.get('note','')}", "workload": workload, "seed": seed, "case": case, "args": cmd})
                     res.sigcounts[sig] = res.sigcounts.get(sig, 0) + 1
                 else:
@@ -197,7 +205,7 @@ def run_shards(binary, workload, extra, cases, secs, seed, tier, outdir, tag, pr
             klass = classify_abort(stderr_txt)
             res.viols.append({
                 "prop": ("C09" if cap and abort_prop in ("C08", "C09") else (abort_prop or prop)),
-                "sig": f"{'C09' if cap and abort_prop in ('C08','C09') else (abort_prop or prop)}/abort/{workload}/{sigclass}/{klass}/{jn.get('note','')}",
+                "sig": f"{'C09' if cap and abort_prop in ('C08','C09') else (abort_prop or prop)}/abort/{workload}/{sigclass}/{klass}/{note_class(jn.get('note',''))}",
                 "detail": f"process died (rc={rc}) while running case {case}: {stderr_txt[-600:]}",
                 "workload": workload, "seed": seed, "case": case, "args": cmd,
             })
@@ -209,6 +217,13 @@ def run_shards(binary, workload, extra, cases, secs, seed, tier, outdir, tag, pr
                 start(i, (case - i) // shards + 1, gen + 1)
     res.stats["wall_s_" + tag] = round(time.time() - t0, 2)
     return res
+
+
+def note_class(note):
+    """journal note of a mutated input ('seed <- operator (detail) <- operator2 (...)') -> operator names only"""
+    import re
+    ops = re.findall(r"<- ([\w-]+)", note or "")
+    return "+".join(ops) if ops else (note or "")[:40]
 
 
 def classify_abort(stderr_txt):
